@@ -180,6 +180,8 @@ class Check(Property):
             want = x * fa / fb
             if not isinstance(r_ab, Fraction) or r_ab != want:
                 v.append(f"{tag} [fraction]: got {r_ab!r} expected exactly {want}")
+            if not isinstance(r_ac, Fraction) or r_ac != x * fa / fc:
+                v.append(f"{tag} [fraction]: a->c gives {r_ac!r}, the definitions give exactly {x * fa / fc}")
             if not isinstance(r_ac, Fraction) or r_bc != r_ac:
                 v.append(f"{tag} [fraction]: path dependence: a->b->c = {r_bc!r}, a->c = {r_ac!r}")
             if r_ab * r_ba != x * x:
